@@ -98,30 +98,19 @@ def run(ctx):
     sc.gen_notes(ctx)
     ctx.prove("C32")
     R = sc.Runner(ctx)
-    # token kind mapping XGo -> TPL through String() of the running packages
-    rc, dump = ctx.run([R.impl, "tokens"])
-    if rc != 0:
-        ctx.broken("harness(tokens)", dump[-300:])
-        return
-    xs, ts = {}, {}
-    for l in dump.split("\n"):
-        f = l.split()
-        if len(f) > 2 and f[0] in ("xgo", "tpl"):
-            d = dict(x.split("=", 1) for x in f[2:])
-            s = "" if d["String"] == "-" else bytes.fromhex(d["String"]).decode("latin1")
-            if s and not s.startswith("token("):
-                (xs if f[0] == "xgo" else ts)[int(f[1])] = s
-    t_by_name = {}
-    for c, s in ts.items():
-        t_by_name.setdefault(s, c)
-    x2t = {c: t_by_name.get(s) for c, s in xs.items()}
-    xgo_only = {c for c in xs if 61 <= c <= 85} | {3, 96}       # keywords, CSTRING, PYSTRING
-    tpl_only = {c for c, s in ts.items() if s in ("~", "@", "**")}
-
+    # every case is a tpl/scanner line: K-diff of the Tpl dialect against tpl/scanner, and the harness
+    # compares the real tpl/scanner with the real XGo scanner on the same input (verdict field);
+    # the XGo dialect itself is tied to scanner.Scan by C15 on the same kinds of input sets.
+    #   "always": the real scanners must agree unless an unshared token kind occurs (finding-set dimensions skipped in
+    #             the exhaustive sets)        "shared": they must agree wherever the model's `shared` holds
     groups = []
     alpha = sc.ALPHA_MED if ctx.quick else sc.ALPHA
     ex = sc.exhaustive(alpha, 3)
-    groups.append(("exhaustive", ex, True))
+    groups.append(("exhaustive-bytes", ex, (True, False), "always"))
+    core = sc.tok_exhaustive(sc.TOK_CORE, ctx.n(5, 6))
+    groups.append(("exhaustive-tokens-core", core, (True,), "always"))
+    wide = sc.tok_exhaustive(sc.TOK_WIDE, 3)
+    groups.append(("exhaustive-tokens-wide", wide, (True, False), "always"))
     seqs, shapes = [], {}
     for _ in range(ctx.n(5000, 200000)):
         s, sh = shared_sequence(ctx.rng)
@@ -130,82 +119,70 @@ def run(ctx):
         seqs.append(s)
         k = "lexemes=%d" % len(sh)
         shapes[k] = shapes.get(k, 0) + 1
-    groups.append(("shared-lexeme-sequence", seqs, True))
+    groups.append(("shared-lexeme-sequence", seqs, (True, False), "always"))
+    st = [sc.stateful_sequence(ctx.rng, extra=(b"1m", b"2.5s", b"3r", b"//c\n", b"/*c*/", b"#c\n", b"?", b"=>", b"$"))[0]
+          for _ in range(ctx.n(5000, 100000))]
+    groups.append(("stateful-sequences", st, (True, False), "shared"))
     mal = [sc.random_sequence(ctx.rng, malformed=60)[0] for _ in range(ctx.n(3000, 100000))]
-    groups.append(("malformed-or-unshared", mal, False))
-    groups.append(("finding-set", list(FINDING_SET), True))
+    groups.append(("malformed-or-unshared", mal, (True, False), "shared"))
+    groups.append(("finding-set", list(FINDING_SET), (True, False), "always"))
     cases, meta = [], []
-    for name, srcs, cmp_ in groups:
+    for name, srcs, modes, how in groups:
         for s in srcs:
-            for m in (True, False):
-                for d in ("t", "x"):
-                    cases.append(sc.case(d, m, s))
-                    meta.append((name, cmp_))
-    impl, model = R.correspond("scan(Tpl)~tpl/scanner.Scan & scan(XGo)~scanner.Scan", cases)
+            for m in modes:
+                cases.append(sc.case("t", m, s))
+                meta.append((name, how))
+    impl, model = R.correspond("scan(Tpl)~tpl/scanner.Scan", cases)
+    # the hypothesis of C32_tpl_eq_xgo_on_shared, evaluated by the extracted model
+    pidx = [i for i in range(len(cases)) if meta[i][0] != "exhaustive-bytes"]
+    pred = dict(zip(pidx, R.run_pred(["x" + cases[i][1:] for i in pidx])))
     stats = {"compared": 0, "skipped_not_shared": 0, "skipped_unit_blank_dimension": 0, "skipped_sharp_dimension": 0,
-             "skipped_block_cr_dimension": 0, "not_compared_group": 0}
-    per_group = {}
-    for i in range(0, len(cases), 2):              # (t, x) pairs
-        name, cmp_ = meta[i]
-        if not cmp_:
-            stats["not_compared_group"] += 1
-            continue
-        src = sc.src_of(cases[i])
-        st, tt, _ = sc.parse_result(impl[i][0])
-        sx, tx, _ = sc.parse_result(impl[i + 1][0])
-        if not st and not sx and (any(t in tpl_only for t, _, _ in tt) or any(t in xgo_only for t, _, _ in tx)):
-            stats["skipped_not_shared"] += 1
-            continue
-        if name == "exhaustive":
-            # dimensions explored by the finding set only (every input of them fails the same way)
-            if any(t == 91 and p + len(l) < len(src) and src[p + len(l)] in b" \t\r" for t, p, l in tx):
+             "skipped_block_cr_dimension": 0, "shared": 0}
+    per_group, sh_group, verd = {}, {}, {}
+    for i, c in enumerate(cases):
+        name, how = meta[i]
+        f = impl[i][1].split()
+        v, dims = f[0], f[1:]
+        verd[v] = verd.get(v, 0) + 1
+        g = pred.get(i, (False, False))[1]
+        fail = None
+        if g:
+            stats["shared"] += 1
+            sh_group[name] = sh_group.get(name, 0) + 1
+            if v != "eq":          # theorem: identical results, errors included
+                fail = "shared holds in the model but the real scanners differ (%s)" % v
+        if how == "always" and fail is None:
+            if v == "unshared":
+                stats["skipped_not_shared"] += 1
+            elif name.startswith("exhaustive") and "dim-unit" in dims:
                 stats["skipped_unit_blank_dimension"] += 1
-                continue
-            if b"#" in src and (b"\r" in src or b"#*" in src):
+            elif name.startswith("exhaustive") and "dim-sharp" in dims:
                 stats["skipped_sharp_dimension"] += 1
-                continue
-            if b"*\r" in src:
+            elif name.startswith("exhaustive") and "dim-blockcr" in dims:
                 stats["skipped_block_cr_dimension"] += 1
-                continue
-        stats["compared"] += 1
-        per_group[name] = per_group.get(name, 0) + 1
-        mapped = [(x2t.get(t, -1), p, l) for t, p, l in tx]
-        if st or sx or mapped != tt:
-            mode = cases[i][1]
-            ctx.fail(sc.key_of("src", mode.encode() + src),
-                     "tpl/scanner and XGo scanner differ on %r (mode %s)" % (src, mode),
-                     {"src_repr": repr(src), "src_hex": src.hex(), "mode": mode, "group": name, "tpl": impl[i][0][:400], "xgo": impl[i + 1][0][:400]})
-    # the hypothesis of C32_tpl_eq_xgo_on_shared, evaluated by the extracted model: wherever it holds
-    # the two real scanners must return the same tokens (kind by spelling, offset, literal) and errors
-    xcases = [cases[i + 1] for i in range(0, len(cases), 2)]
-    pred = R.run_pred(xcases)
-    sh = {"shared": 0, "shared_in_sequences": 0, "sequences": 0}
-    for k, (_, g) in enumerate(pred):
-        i = 2 * k
-        name = meta[i][0]
-        if name == "shared-lexeme-sequence":
-            sh["sequences"] += 1
-            sh["shared_in_sequences"] += int(g)
-        if not g:
-            continue
-        sh["shared"] += 1
-        st, tt, et = sc.parse_result(impl[i][0])
-        sx, tx, exx = sc.parse_result(impl[i + 1][0])
-        if st or sx or [(x2t.get(t, -1), p, l) for t, p, l in tx] != tt or et != exx:
-            src, mode = sc.src_of(cases[i]), cases[i][1]
-            ctx.fail(sc.key_of("src", mode.encode() + src),
-                     "shared holds in the model but the real scanners differ on %r (mode %s)" % (src, mode),
-                     {"src_repr": repr(src), "src_hex": src.hex(), "mode": mode, "group": name, "tpl": impl[i][0][:400], "xgo": impl[i + 1][0][:400]})
+            else:
+                stats["compared"] += 1
+                per_group[name] = per_group.get(name, 0) + 1
+                if v not in ("eq", "eqtok"):
+                    fail = "tpl/scanner and XGo scanner differ"
+        if fail:
+            src, mode = sc.src_of(c), c[1]
+            ctx.fail(sc.key_of("src", mode.encode() + src), "%s on %r (mode %s)" % (fail, src, mode),
+                     {"src_repr": repr(src), "src_hex": src.hex(), "mode": mode, "group": name, "tpl": impl[i][0][:400], "verdict": impl[i][1]})
     ctx.cover(evaluations=len(cases), distinct_nontrivial=len(set(c[3:] for c in cases)),
-              samples=[{"case": cases[k], "impl": impl[k][0][:160]} for k in (4 * len(ex) - 4, 4 * len(ex) + 40, len(cases) - 4 * len(FINDING_SET) - 3, len(cases) - 2)],
-              rule="exhaustive: all %d strings of <=3 symbols over a %d-symbol alphabet; %d seeded shared-lexeme sequences (safe generator: "
-                   "non-keyword identifiers, Go literals, unit/rat/imag suffixes, shared operators, // /* */ and # comments, odd bytes; "
-                   "nothing of the finding-set dimensions: blanks after a unit, \\r or '#*' in a # comment, '*\\r/' in a block comment); %d "
-                   "mutated/unshared sequences (model~impl only); the fixed finding set (%d inputs). Every source x {comments on, off} x "
-                   "{tpl, XGo}. The real scanners are compared where both outputs contain only shared token kinds; in the exhaustive set "
-                   "the three finding-set dimensions are skipped (counted in compare_stats). distinct = distinct source"
-                   % (len(ex), len(alpha), len(seqs), len(mal), len(FINDING_SET)),
-              exhaustive=True, exhaustive_part=4 * len(ex), compare_stats=stats, theorem_hypothesis_stats=sh, compared_per_group=per_group,
-              sequence_shape_histogram=dict(sorted(shapes.items())))
+              samples=[{"case": cases[k], "impl": impl[k][0][:160], "verdict": impl[k][1]} for k in (2 * len(ex) - 4, 2 * len(ex) + len(core) // 3, len(cases) - 2 * len(FINDING_SET) - 3, len(cases) - 2)],
+              rule="exhaustive: all %d strings of <=3 symbols over a %d-symbol byte alphabet; token-level: all %d sequences of <=%d lexemes over "
+                   "( ) ; ... ! newline a blank and all %d sequences of <=3 lexemes over a %d-lexeme alphabet (multi-character operators, "
+                   "comments, unit numbers as single symbols: state carried across tokens - nParen, insertSemi, pending unit); %d seeded "
+                   "shared-lexeme sequences (safe generator: non-keyword identifiers, Go literals, unit/rat/imag suffixes, shared operators, "
+                   "// /* */ and # comments, odd bytes; nothing of the finding-set dimensions); %d seeded stateful sequences of 4-12 lexemes; %d "
+                   "mutated/unshared sequences; the fixed finding set (%d inputs). Every case is a tpl/scanner run (K-diff with the Tpl "
+                   "dialect) compared by the harness with the real XGo scanner on the same input: (a) exhaustive / shared-sequence / finding "
+                   "sets: must agree unless an unshared token kind occurs (in the exhaustive sets the three finding-set dimensions - blank "
+                   "after a unit, \\r or '#*' in a # comment, '*\\r' - are skipped and counted); (b) all other sets: must be identical "
+                   "wherever the model's `shared` holds. distinct = distinct source"
+                   % (len(ex), len(alpha), len(core), ctx.n(5, 6), len(wide), len(sc.TOK_WIDE), len(seqs), len(st), len(mal), len(FINDING_SET)),
+              exhaustive=True, exhaustive_part=2 * len(ex) + len(core) + 2 * len(wide), compare_stats=stats, compared_per_group=per_group,
+              shared_per_group=sh_group, real_scanner_verdicts=verd, sequence_shape_histogram=dict(sorted(shapes.items())))
     ctx.trust("modelled, not verified: tpl/scanner/scanner.go and scanner/scanner.go (one Gallina text with a dialect switch), each tied "
-              "to its implementation by the differential run")
+              "to its implementation by the differential run (the XGo dialect in C15)")
